@@ -95,7 +95,16 @@ function genBound(rng, roots, modRoots) {
   if (r < 11 && modRoots.length) return rng.bool(0.5) ? X.mem(X.mem(X.id(rng.pick(modRoots)), 'o'), 'g') : X.idx(X.mem(X.id(rng.pick(modRoots)), 'tab'), X.id('tk'))
   if (r < 13) return X.cond(X.id(rng.pick(['t', 'f'])), genChain(rng, root, 2), genChain(rng, rng.pick(roots), 2))
   if (r < 14) return X.mem(X.cond(X.id(rng.pick(['t', 'f'])), X.id(root), X.id(rng.pick(roots))), rng.pick(['x', 'y']))
-  if (r < 15) return X.cond(X.id(rng.pick(['t', 'f'])), genChain(rng, root, 1), genNonPath(rng, X.id(root)))
+  if (r < 15) {
+    const q = rng.int(6)
+    const tf = () => X.id(rng.pick(['t', 'f']))
+    // nested conditionals, also under a member access: every level yields the path of the branch taken (or none)
+    if (q === 0) return X.mem(X.cond(tf(), X.cond(tf(), X.id(root), X.id(rng.pick(roots))), X.id(rng.pick(roots))), rng.pick(['x', 'y']))
+    if (q === 1) return X.mem(X.cond(tf(), X.cond(tf(), X.id(root), X.num('1')), X.id(rng.pick(roots))), rng.pick(['x', 'y']))
+    if (q === 2) return X.idx(X.cond(tf(), X.id(rng.pick(roots)), X.cond(tf(), genChain(rng, root, 1), genNonPath(rng, X.id(root)))), X.id(rng.pick(['kx', 'ky'])))
+    if (q === 3) return X.cond(tf(), X.cond(tf(), genChain(rng, root, 1), genChain(rng, rng.pick(roots), 1)), genNonPath(rng, X.id(root)))
+    return X.cond(tf(), genChain(rng, root, 1), genNonPath(rng, X.id(root)))
+  }
   if (r < 16 && modRoots.length) return X.cond(X.id(rng.pick(['t', 'f'])), X.mem(X.id(modRoots[0]), 'f'), genChain(rng, root, 1))
   return genNonPath(rng, genChain(rng, root, 1))
 }
@@ -128,7 +137,9 @@ function genBody(rng, depth, roots, modRoots) {
       else if (r < 7 && itemRoots.length) listE = X.mem(X.id(rng.pick(itemRoots)), 'sub')
       else if (r < 8 && modRoots.length) listE = X.mem(X.mem(X.id(modRoots[0]), 'o'), 'list')
       else if (r < 9) listE = rng.pick([X.call(X.id('fn'), []), X.arr([{ k: 'v', e: X.id('a') }, { k: 'v', e: X.id('b') }]), X.num('2')])
-      else if (r < 10) listE = X.cond(X.id(rng.pick(['t', 'f'])), X.id('list'), X.id('prims'))
+      else if (r < 10) listE = rng.bool(0.5) ? X.cond(X.id(rng.pick(['t', 'f'])), X.id('list'), X.id('prims'))
+        // a list that has a path on one branch only
+        : rng.bool(0.5) ? X.cond(X.id(rng.pick(['t', 'f'])), X.id('list'), X.arr([{ k: 'v', e: X.id('a') }])) : X.cond(X.id(rng.pick(['t', 'f'])), X.call(X.id('fn'), []), X.idx(X.id('lists'), X.id('sel')))
       // a list that is data on one branch and a script module member on the other
       else if (r < 11) listE = X.cond(X.id(rng.pick(['t', 'f'])), X.id('list'), X.mem(X.mem(X.id(rng.pick(modRoots)), 'o'), 'list'))
       else listE = X.cond(X.id(rng.pick(['t', 'f'])), X.mem(X.mem(X.id(rng.pick(modRoots)), 'o'), 'list'), X.mem(X.id('map'), 'p'))
@@ -280,7 +291,7 @@ export function judge(ctx, c, res) {
         else report.shape('model|' + X.shape(e))
       } else if (!cl || cl.root !== 'data') report.shape('model-none|' + X.shape(e))
       else report.count('assignable_without_path')
-      if (p.n.probe.component && phase === lastPhase) writeBacks.push({ node, e, cl, modelPath, key, pi })
+      if (phase === lastPhase) writeBacks.push({ node, e, cl, modelPath, key, pi, native: !p.n.probe.component })
     } else {
       // what the attached listener really hands over when the event fires (the runtime may keep an older listener)
       if (['bind', 'catch'].includes(fam) && typeof delivered === 'function') {
@@ -326,14 +337,16 @@ export function judge(ctx, c, res) {
   // when the expression is not assignable now
   const fingerprint = (skip) => X.show(Object.fromEntries(Object.entries(comp.data).filter(([k]) => k !== skip)), 0)
   const deepCopy = (v) => (Array.isArray(v) ? v.map(deepCopy) : v && typeof v === 'object' ? Object.fromEntries(Object.entries(v).map(([k, x]) => [k, deepCopy(x)])) : v)
-  for (const { node, e, cl, modelPath, key, pi } of writeBacks) {
+  for (const { node, e, cl, modelPath, key, pi, native } of writeBacks) {
     const SENT = { writeBack: key + ':' + pi }
     const assignable = !!(cl && cl.root === 'data' && modelPath)
     // a write may create missing intermediate objects below its root field: everything outside that field must stay as it is
     const rootField = assignable ? cl.path[0] : undefined
     const was = fingerprint(rootField)
     const savedRoot = assignable ? deepCopy(comp.data[rootField]) : undefined
-    try { withWarnings(ge, tr, () => node.setData({ value: SENT })) } catch (err) { viol(`reporting a change from the component threw: ${String(err.message || err).slice(0, 160)}`, { expr: X.printFull(e) }); return }
+    // (a native node reports through the listener the runtime installed for the attribute, if any)
+    const report_ = native ? () => { const l = node.getModelBindingListeners()[key]; if (l) l(SENT); else if (assignable) throw new Error('no model listener is installed') } : () => node.setData({ value: SENT })
+    try { withWarnings(ge, tr, report_) } catch (err) { viol(`reporting a change from the component threw: ${String(err.message || err).slice(0, 160)}`, { expr: X.printFull(e) }); return }
     report.count('write_backs')
     if (assignable) {
       if (getPath(comp.data, cl.path) !== SENT) { viol(`model:value="{{${X.printFull(e)}}}": the value reported by the component did not arrive at ${JSON.stringify(cl.path)}`, { expr: X.printFull(e), modelPath }); return }
@@ -341,7 +354,7 @@ export function judge(ctx, c, res) {
       report.shape('write-back|' + X.shape(e))
       try { withWarnings(ge, tr, () => comp.setData({ [rootField]: savedRoot })) } catch (err) { return }
     } else if (fingerprint(undefined) !== was) {
-      viol(`model:value="{{${X.printFull(e)}}}" is not assignable now, but a change reported by the component was written into the host data`, { expr: X.printFull(e), modelPath: modelPath ?? null })
+      viol(`model:${key}="{{${X.printFull(e)}}}" is not assignable now, but a change reported by the ${native ? 'native node' : 'component'} was written into the host data`, { expr: X.printFull(e), modelPath: modelPath ?? null })
       return
     } else report.shape('write-back-none|' + X.shape(e))
   }
